@@ -10,10 +10,9 @@ From PV Require Import Model.C26_cli Proofs.C26_cli.
    i.e. 2 for an argument error, else the number of usage errors if any, else 1 for "no Modelica
    files", else the number of files with parse errors if any, else the number of requested models
    that fail to flatten / generate (casadi: or have no unique file).
-   Hypothesis `parse_caught` carves out exactly the recorded defect class (known finding
-   parse-file-undecodable-escapes): a listed file whose read/parse raises an exception class that
-   parse_file does not catch.  It is vacuous for -t casadi and for a parse_file that catches
-   Exception (C26_count_total). *)
+   Hypothesis `parse_caught`: no listed file's read/parse raises an exception class that the
+   table's parse_file handler does not catch.  It is vacuous for -t casadi and for a parse_file
+   that catches Exception (C26_count_total), which is the case at /repo HEAD (C26_count_head). *)
 Theorem C26_count (sk : skel) (f : facts) :
   skel_ok sk = true -> parse_caught sk f -> main_with sk f = Exit (count f).
 Proof. exact (count_correct sk f). Qed.
@@ -25,11 +24,18 @@ Theorem C26_count_total (sk : skel) :
 Proof. exact (count_total sk). Qed.
 Print Assumptions C26_count_total.
 
-(* the unconditional statement is false of the faithful model of /repo HEAD: an undecodable
-   .mo file makes main raise (UnicodeDecodeError, a ValueError) *)
-Theorem C26_count_refuted : exists f, main f = Raises EValue /\ ~ parse_caught head_skel f.
-Proof. exact head_refuted. Qed.
-Print Assumptions C26_count_refuted.
+(* /repo HEAD (hand-written table, parse_file catches Exception since 52ae5a2): for EVERY invocation
+   main lets no exception escape and exits with the count *)
+Theorem C26_count_head (f : facts) : main f = Exit (count f).
+Proof. exact (count_head f). Qed.
+Print Assumptions C26_count_head.
+
+(* the hypothesis parse_caught of C26_count cannot be dropped for a narrower handler: the table
+   before 52ae5a2 satisfies skel_ok, yet an undecodable .mo file makes main raise *)
+Theorem C26_narrow_parse_handler_escapes : skel_ok narrow_skel = true /\
+  exists f, main_with narrow_skel f = Raises EValue /\ ~ parse_caught narrow_skel f.
+Proof. exact narrow_escapes. Qed.
+Print Assumptions C26_narrow_parse_handler_escapes.
 
 (* exit status 0 iff full success *)
 Theorem C26_zero_iff_success (sk : skel) (f : facts) :
